@@ -125,25 +125,7 @@ theorem nextBar_total (s : Maximum F) (b : Bar F) (h : WF s) :
     ∃ r, s.nextBar b = some r ∧ WF r.1 ∧ r.1.period = s.period := by
   rw [nextBar_eq]; exact next_total s b.high h
 
-/-- `reset` rewinds both cursors and refills the buffer: it rebuilds exactly the state `new`
-    builds (state equality: any history, any values) -/
-theorem reset_eq (s : Maximum F) (h : WF s) : s.reset = some (fresh s.period) := by
-  unfold reset
-  simp [fill_all _ _ _ h.size, fresh]
-
-theorem reset_wf (s : Maximum F) (h : WF s) : ∃ r, s.reset = some r ∧ WF r ∧ r.period = s.period :=
-  ⟨_, reset_eq s h, fresh_wf _ h.pos h.small, rfl⟩
-
 omit [Scalar F] in
 theorem period_fn_eq (s : Maximum F) : s.period_fn = s.period := rfl
-
-omit [Scalar F] in
-theorem display_eq (fmt : F → String) (s : Maximum F) :
-    display fmt s = "MAX(" ++ toString s.period ++ ")" := rfl
-
-theorem default_eq : (default_ : Option (Maximum F)) = some (fresh 14) := by
-  unfold default_
-  rw [new_eq]
-  simp [unwrap, isizeMax]
 
 end TaRs.Gen.Maximum
